@@ -7,7 +7,7 @@ INPUT_OPTS = [("S", "live"), ("S", "zero"), ("S", "inact"),
               ("SH", "live"), ("SH", "inact-reg")]
 
 
-def mux_spec(inputs, pal=0, rs_list=False, rails=False, by_rail=False, below="std", own_loads=True, pol=1, order=None):
+def mux_spec(inputs, pal=0, rs_list=False, rails=False, by_rail=False, below="std", own_loads=True, pol=1, order=None, mux_pc=None):
     """inputs: list of (type, status).  Phases PH2: 'inact*' elements are active in phase a only."""
     L = letters(pal)
     V = PALETTES[pal]["V"] * pol
@@ -48,7 +48,7 @@ def mux_spec(inputs, pal=0, rs_list=False, rails=False, by_rail=False, below="st
     pdes = [recs[e]["r"] if (by_rail and recs[e]["r"]) else e for e in ends]
     if order:  # priority order different from creation order
         pdes = [pdes[j] for j in order]
-    comps.append(dict(n="M", k=kind, a=a, p=pdes, g="", r="RM" if rails else "", pc=None, lim=None, plist=True))
+    comps.append(dict(n="M", k=kind, a=a, p=pdes, g="", r="RM" if rails else "", pc=mux_pc, lim=None, plist=True))
     if below in ("std", "deep"):
         kind, args = L["IL"]
         comps.append(dict(n="LM", k=kind, a=copy.deepcopy(args), p=["RM" if (by_rail and rails) else "M"], g="", r="", pc=None, lim=None))
